@@ -37,7 +37,8 @@ UNIVERSE = [b"", b"\x00", b"\x00\x00", b"\x00\x10", b"\x01", b"\x10"]
 
 def strategy(tier):
     return st.fixed_dictionaries(
-        {"prune": st.booleans(), "ops": histories(tier, batches=True, aborts=False)}
+        {"prune": st.booleans(), "sparse": st.booleans(),
+         "ops": histories(tier, batches=True, aborts=False, looks=2, reroot=True)}
     )
 
 
